@@ -25,7 +25,9 @@ def run(c):
             s.update(issuer=("sig384", "sig512", "sigpss")[(i // 6) % 3])
         if i % 3 == 1:
             s.update(after_error=True)      # an earlier update failed in the signer
-        if i % 5 == 3:
+        if i % 8 == 6 and s["via"] == "SignEFIVariable" and not s.get("mutate_after"):
+            s.update(flaky=True)            # the signer is busy on the first request of a call; the caller asks again
+        elif i % 5 == 3:
             s.update(overlapped=True)       # another complete update is produced while this one waits in its signer
         if i % 23 == 1:
             s.update(slow=True, burst=1)    # a signer that takes longer than a second (hardware token): the clock ticks during the call
